@@ -31,7 +31,7 @@ Act_C05 == [][IsStep => C05_Step(w, ev', w', obs, obs')]_vars
 Act_C06 == [][IsStep => C06_Step(w, ev', w', obs, obs')]_vars
 Act_C07 == [][IsStep => C07_Step(w, ev', w')]_vars
 Act_C08 == [][IsStep => C08_Step(w, ev', w')]_vars
-Act_C09 == [][IsStep => C09_Step(w, ev', w')]_vars
+Act_C09 == [][IsStep => C09_Step(w, ev', w', obs)]_vars
 Act_C10 == [][IsStep => C10_Step(w, ev', w')]_vars
 Act_C11 == [][IsStep => C11_Step(w, ev', w', obs')]_vars
 Act_C13 == [][IsStep => (C13_Step(w, ev', w', obs, obs') /\ C02_DelegateRegistered(w, ev'))]_vars   \* incl.: later bonds go to registered validators only
